@@ -110,8 +110,8 @@ func runExifProps(c *Ctx, which string) error {
 			valuesFirst: c.Rng.Intn(2) == 0, entryOrderVals: c.Rng.Intn(2) == 0, ifd1: c.Rng.Intn(3) == 0,
 			slotJunk: c.Rng.Intn(3) == 0, isoPair: c.Rng.Intn(3) == 0}
 		if c.Rng.Intn(10) == 0 {
-			// many tags: more than 84 in the file, never more than about 55 pending (each directory's values before its sub-directories)
-			lo.foreign, lo.valuesFirst, lo.entryOrderVals = 45, true, true
+			// many tags: more than 84 in the file, never more than about 55 pending (depth first: a directory, its values, then its sub-directories)
+			lo.foreign, lo.valuesFirst, lo.entryOrderVals, lo.depthFirst = 45, true, true, true
 			c.Stat("layout.many-tags")
 		}
 		if lo.slotJunk {
